@@ -33,8 +33,80 @@ def tok_of_items(l):
     return ','.join(r)
 
 
+# ---- argument forms (the helpers are documented for str as well as bytes, and are called with int-likes / buffers)
+class _IntSub(int):
+    pass
+
+
+def _err(e):
+    return 'ERR'
+
+
+def _buf(form, b):
+    if form == 'bytes':
+        return b
+    if form == 'bytearray':
+        return bytearray(b)
+    if form == 'memoryview':
+        return memoryview(b)
+    if form == 'list':
+        return list(b)
+    if form == 'hexstr':
+        return b.hex()
+    if form == 'str':                      # the token is the UTF-8 (surrogatepass) form of the text
+        return b.decode('utf-8', 'surrogatepass')
+    raise ValueError(form)
+
+
+def _num(form, n):
+    if form == 'int':
+        return n
+    if form == 'bool':
+        return bool(n)
+    if form == 'intsub':
+        return _IntSub(n)
+    if form == 'float':
+        return float(n)
+    if form == 'decstr':
+        return str(n)
+    if form == 'decimal':
+        from decimal import Decimal
+        return Decimal(n)
+    if form == 'fraction':
+        from fractions import Fraction
+        return Fraction(n)
+    raise ValueError(form)
+
+
+def dispatch_forms(t):
+    k = t[0]
+    try:
+        if k == 'varstr_a':
+            return hx(varstr(_buf(t[1], unhx(t[2]))))
+        if k == 'cs_enc_a':
+            return hx(int_to_varbyteint(_num(t[1], int(t[2]))))
+        if k == 'cs_dec_a':
+            v, n = varbyteint_to_int(_buf(t[1], unhx(t[2])))
+            return '%d %d' % (v, n)
+        if k == 'data_pack_a':
+            return hx(bytes(data_pack(_buf(t[1], unhx(t[2])))))
+        if k == 'encode_num_a':
+            return hx(encode_num(_num(t[1], int(t[2]))))
+        if k == 'decode_num_a':
+            return str(int(decode_num(_buf(t[1], unhx(t[2])))))
+        if k == 'serialize_a':
+            cmds = [c if isinstance(c, int) else _buf(t[1], c) for c in cmds_of_tok(t[2])]
+            return hx(Script(cmds).serialize())
+    except Exception as e:
+        return _err(e)
+    return None
+
+
 def dispatch(t):
     k = t[0]
+    if k.endswith('_a'):
+        r = dispatch_forms(t)
+        return 'BADREQ' if r is None else r
     if k == 'cs_enc':
         try:
             return hx(int_to_varbyteint(int(t[1])))
